@@ -231,14 +231,17 @@ UnansweredEv(e, s) ==
       ta == IF can THEN TreeAfter(s) ELSE nodes
       (* where the live view has unobservable paths the loadable file decides which items and articles exist *)
       blind == \E n \in Range(e.live.nodes) : n.unobs
-      onDisk(x) == ~blind \/ ~e.disk.ok \/ DiskShapeOK(e.disk, x)
-      okA == ~e.ended /\ can /\ TreeClean(e, ta) /\ onDisk(ta)
-      okU == ~e.ended /\ TreeClean(e, nodes) /\ onDisk(nodes)
+      onDisk(x) == ~blind \/ DiskShapeOK(e.disk, x)
+      (* neither the affected path can be read nor the file be loaded (both reported before): the effect of the step
+         cannot be known, the rest of the run is not judged *)
+      undec == blind /\ ~e.disk.ok
+      okA == ~e.ended /\ ~undec /\ can /\ TreeClean(e, ta) /\ onDisk(ta)
+      okU == ~e.ended /\ ~undec /\ TreeClean(e, nodes) /\ onDisk(nodes)
       t == IF okA THEN ta ELSE nodes
       (* a request that is valid in the model (existing item, existing or zero parent) and must change the tree, but
          the tree the server shows afterwards does not have the change: the post / the new item / the deletion is
          lost - the statement applies whatever the server did instead of answering *)
-      lost == \/ ~e.ended /\ can /\ ta # nodes /\ ~okA
+      lost == \/ ~e.ended /\ ~undec /\ can /\ ta # nodes /\ ~okA
               \/ ~e.ended /\ e.op \in {"get", "list", "cats"} /\ Exists(e.path)     \* a read of an existing path
       why == IF e.ended THEN "server not observable any more: run ended"
              ELSE IF e.panicked THEN "connection closed instead of a reply (handler panicked)"
